@@ -9331,7 +9331,16 @@ class SVG(Group):
                     s.render(ppi=ppi, width=width, height=height)
                     clip += 1
                 elif SVG_TAG_USE == tag:
-                    s = Use(values)
+                    try:
+                        s = Use(values)
+                    except ValueError as e:
+                        # x and y are folded into the transform, which may fail only now: skip the use.
+                        if on_error == "raise":
+                            raise e
+                        if on_error == "stop":
+                            return root
+                        values[SVG_ATTR_DISPLAY] = SVG_VALUE_NONE
+                        continue
                     if SVG_ATTR_TRANSFORM in s.values:
                         # Update value in case x or y applied.
                         values[SVG_ATTR_TRANSFORM] = s.values[SVG_ATTR_TRANSFORM]
